@@ -255,3 +255,21 @@ Definition holds_op (c : opcase) : bool :=
 
 Definition check_op (c : opcase) : bool * bool :=
   (res_eqb tab_eqb (model_op c) (op_obs c), holds_op c).
+
+(* -------- compact literals --------------------------------------------------- *)
+
+(* Long regular lists (tables with > 1000 rows or columns: numpy summarises printed arrays
+   beyond 1000 elements) are written by the harness as generators instead of element by
+   element (Coq parses ~12 k literal characters per second).  harness/c15_lit.py emits only
+   these forms and re-expands every literal in Python before it is used (self-check);
+   their meaning is proved in C15_Std.v (zseq_spec, zrep_spec, gnames_spec, by_cols_spec). *)
+Fixpoint zseq_nat (a : Z) (n : nat) : list Z :=
+  match n with O => [] | S k => a :: zseq_nat (a + 1) k end.
+(* a, a+1, ..., a+n-1 : consecutive integers, resp. consecutive float64 bit patterns *)
+Definition zseq (a n : Z) : list Z := zseq_nat a (Z.to_nat n).
+Definition zrep (v n : Z) : list Z := repeat v (Z.to_nat n).
+Definition nrep (nm : name) (n : Z) : list name := repeat nm (Z.to_nat n).
+(* p ++ str(a), p ++ str(a+1), ... : n names *)
+Definition gnames (p : name) (a n : Z) : list name := map (fun k => p ++ dec k) (zseq a n).
+(* a table of n rows given by its columns *)
+Definition by_cols (n : Z) (cols : list (list Z)) : list (list Z) := transpose (Z.to_nat n) cols.
